@@ -163,9 +163,10 @@ Fixpoint trace (fx : fixes) (hk : bool) (s : state) (ops : list op) : list sexp 
 
 Definition dec_fixes (s : sexp) : option fixes :=
   match s with
-  | SL [a; b; c] => match dec_bool a, dec_bool b, dec_bool c with
-                    | Some a, Some b, Some c => Some {| fix_rebind := a; fix_meta := b; fix_memmap := c |}
-                    | _, _, _ => None end
+  | SL [a; b; c; d; e] => match dec_bool a, dec_bool b, dec_bool c, dec_bool d, dec_bool e with
+                          | Some a, Some b, Some c, Some d, Some e =>
+                              Some {| fix_rebind := a; fix_meta := b; fix_memmap := c; fix_lockgraph := d; fix_lockflag := e |}
+                          | _, _, _, _, _ => None end
   | _ => None
   end.
 
